@@ -50,6 +50,18 @@ def run_world(world, simcfg, seed, pre_getters=True, step_cap=None, id_offset=0,
                 except SystemExit:
                     out["system_exit"] = True
                     out["where"] = "pre_getters"
+            if hooks and hooks.get("solve_first"):
+                # the caller solved this object successfully before; the planned faults belong to the *next* solve()
+                planned, w.faults = w.faults, {}
+                try:
+                    model.solve()
+                    out["first"] = models.observe(model, cname)
+                except W.Discard:
+                    raise
+                except BaseException as e:
+                    out["first"] = {"exc": type(e).__name__}
+                out["first_invocations"] = w.inv
+                w.faults = {int(k_) + w.inv: dict(v_, at=int(k_) + w.inv) for k_, v_ in planned.items()}
             try:
                 out["solve_ret"] = model.solve()
             except W.Discard:
